@@ -796,7 +796,13 @@ func ruleBodyTerminates() check.Rule {
 			m := c.M
 			n := 0
 			for _, sc := range m.SCs {
-				if len(sc.SubSites) > 0 || len(sc.Gos) > 0 || len(sc.Timers) > 0 || len(sc.Blocks) > 0 || len(sc.Unknown) > 0 {
+				blocking := false
+				for _, b := range sc.Blocks {
+					if b.What != "loop" {
+						blocking = true
+					}
+				}
+				if len(sc.SubSites) > 0 || len(sc.Gos) > 0 || len(sc.Timers) > 0 || blocking || len(sc.Unknown) > 0 {
 					continue
 				}
 				armed := c.Armed(sc)
